@@ -47,6 +47,42 @@ def tiny_pool_join(res, rng, frames=12, fails=None):
     return fails
 
 
+def tmp_page_fill_join(res, widths=(1, 2, 3, 4, 5, 6)):
+    """hash joins whose build side fills its temporary pages to the last byte: for w integer columns per row a record of the
+    temporary page takes 5*w + 4 bytes, and the rows are as many as fill one page and start the next, on BOTH sides (whichever
+    side the planner builds from); every row must come back exactly as stored"""
+    fails = []
+    db = DB(mem_kb=4000)
+    try:
+        if not db.open().startswith("ok"):
+            return [("open", "database does not start: %s" % db.dead)]
+        for w in widths:
+            n = 4076 // (5 * w + 4) + 25
+            ta, tb = "fa%d" % w, "fb%d" % w
+            ca = ["a%d" % i for i in range(w)]; cb = ["b%d" % i for i in range(w)]
+            db.cmd("mktable %s %s" % (ta, ",".join("%s:i:n" % c for c in ca)))
+            db.cmd("mktable %s %s" % (tb, ",".join("%s:i:n" % c for c in cb)))
+            for i in range(n):
+                db.cmd("rawinsert %s %s" % (ta, " ".join("i:%d" % (i if j == 0 else 1000 * j + i) for j in range(w))))
+                db.cmd("rawinsert %s %s" % (tb, " ".join("i:%d" % (i if j == 0 else 7000 * j + i) for j in range(w))))
+            sql = "SELECT %s, %s FROM %s JOIN %s ON %s.a0 = %s.b0;" % (", ".join("%s.%s" % (ta, c) for c in ca), ", ".join("%s.%s" % (tb, c) for c in cb), ta, tb, ta, tb)
+            want = sorted(",".join(["i:%d" % (i if j == 0 else 1000 * j + i) for j in range(w)] + ["i:%d" % (i if j == 0 else 7000 * j + i) for j in range(w)]) for i in range(n))
+            shape = db.cmd("plan " + sql)
+            got = canon_rows(db.sql(sql, timeout=60))
+            res.evaluations += 1
+            res.note_case("tmp-page fill join w=%d n=%d %s" % (w, n, shape), True)
+            if got != "ok:" + ";".join(want) or db.dead:
+                g = got[3:].split(";") if got.startswith("ok:") else []
+                miss = [x for x in want if x not in set(g)][:3]
+                fails.append(("# tables %s, %s: %d rows of %d integer columns each (rawinsert), no index; plan %s\n%s" % (ta, tb, n, w, shape, sql),
+                              "hash join over a build side that fills its temporary page exactly: engine returns %s rows, %d expected; missing e.g. %s; answer %s" % (len(g) if g else "no", n, miss, (got if not db.dead else db.dead)[:160])))
+                break
+        res.extra["tmp_page_fill_widths"] = list(widths)
+    finally:
+        db.destroy()
+    return fails
+
+
 def small_pool_dml(res, rng, frames=32, steps=60, fails=None, nrows=250):
     fails = fails if fails is not None else []
     m = Mirror(rng, mem_kb=frames * 4)
